@@ -58,6 +58,9 @@ class RuleResult(object):
         if not isinstance(construct, str):
             construct = norm(construct)
         key = "%s|%s|%s" % (self.rule_id, qual, construct)
+        for f in self.findings:
+            if f.key == key:
+                return f
         loc = "%s:%d" % (mod.path, getattr(node, "lineno", 0) if node is not None else 0)
         self.instances.append(("%s @ %s" % (construct, qual), "VIOLATION"))
         f = Finding(self.rule_id, self.prop, key, loc, message, detail)
